@@ -164,7 +164,7 @@ func genMainCase(t *rapid.T) interface{} {
 	valset := 1
 	for i := 0; i < n; i++ {
 		var b connkit.MBlock
-		k := rapid.SampledFrom([]int{0, 1, 1, 2, 2, 3, 4}).Draw(t, "ntx")
+		k := rapid.SampledFrom([]int{0, 1, 1, 2, 2, 3, 4, 6, 9, 12}).Draw(t, "ntx")
 		for j := 0; j < k; j++ {
 			switch rapid.IntRange(0, 12).Draw(t, "txkind") {
 			case 0, 1, 2, 3, 4:
